@@ -275,8 +275,9 @@ def match_tagstr_sep(case, impl, model):
 
 
 def match_d10_build(case, impl, model):
-    """D10 at the wheel build tag: int() of more than 4300 digits raises a bare ValueError out of parse_wheel_filename."""
-    if case.cmd != "f.wheel" or impl != "!EXC:ValueError" or not case.args[0].endswith(".whl"): return False
+    """D10 at the wheel build tag: a build number of more than 4300 digits is rejected (int() has a digit limit) although the model,
+    which has none, decodes the filename."""
+    if case.cmd != "f.wheel" or impl != "E" or not (isinstance(model, str) and model.startswith("OK")) or not case.args[0].endswith(".whl"): return False
     parts = case.args[0][:-4].split("-")
     return len(parts) == 6 and len(parts[2]) - len(parts[2].lstrip("0123456789")) > 4300
 
